@@ -356,6 +356,16 @@ func c11(c *Ctx) {
 		"non-trivial = the request was sent to the race-instrumented server, and status, error body well-formedness, handler log and Covers(body, handler message) were evaluated / the client call returned within the watchdog"
 	c.R.Assume("Covers is deliberately narrow (known fields, scalar leaves, lenient proto3-JSON equality); unknown and duplicate keys are borderline: only no-panic/no-5xx is asserted for them")
 	feats := sampleFeats(c, corpus.Features(), 2)
+	// every oneof feature in both tiers (few, and the two-members mutation needs them)
+	have := map[string]bool{}
+	for _, f := range feats {
+		have[f.ID] = true
+	}
+	for _, f := range corpus.Features() {
+		if strings.HasPrefix(f.Ann, "oneof_") && !have[f.ID] {
+			feats = append(feats, f)
+		}
+	}
 	fl, err := buildFeatureLab(c, "c11", feats, []variant{{Tag: "s", Plugins: []string{"go-http", "go-client"}}}, true, []string{"top"}, true)
 	if err != nil {
 		c.R.Harness(err.Error())
@@ -432,6 +442,15 @@ func c11(c *Ctx) {
 					muts = append(muts, mutation{Class: fmt.Sprintf("two-members-of-one-oneof/%s+%s", fa.Name(), fb.Name()), Body: b, CT: "application/json"})
 				}
 			}
+		}
+		if os.Getenv("VERIF_DEBUG_C11") != "" {
+			n := 0
+			for _, mu := range muts {
+				if strings.HasPrefix(mu.Class, "two-members") {
+					n++
+				}
+			}
+			fmt.Fprintln(os.Stderr, "C11DBG", u.FP.Feat.ID, "oneofs", md.Oneofs().Len(), "two-member-mutations", n)
 		}
 		for mi, mu := range muts {
 			caseID := base + "@" + mu.Class
